@@ -97,7 +97,21 @@ fn ty_str(ty: Ty<'_>) -> String {
 // Intern a type; the table entry is [string, nref, kind, path|null, [type-arg indices]]
 fn ty_ix<'tcx>(tcx: TyCtxt<'tcx>, ty: Ty<'tcx>) -> usize {
     let s = ty_str(ty);
-    if let Some(i) = OUT.with(|o| o.borrow().type_ix.get(&s).copied()) {
+    // closures/coroutines created at the same (macro) span print identically: make the interning key unique
+    // by the def paths of every closure-like type mentioned
+    let mut key = s.clone();
+    for arg in ty.walk() {
+        if let Some(t) = arg.as_type() {
+            match t.kind() {
+                ty::Closure(did, _) | ty::Coroutine(did, _) | ty::CoroutineClosure(did, _) => {
+                    key.push('#');
+                    key.push_str(&path_of(tcx, *did));
+                }
+                _ => {}
+            }
+        }
+    }
+    if let Some(i) = OUT.with(|o| o.borrow().type_ix.get(&key).copied()) {
         return i;
     }
     // reserve the slot first (recursive types through generic args)
@@ -105,7 +119,7 @@ fn ty_ix<'tcx>(tcx: TyCtxt<'tcx>, ty: Ty<'tcx>) -> usize {
         let mut o = o.borrow_mut();
         let ix = o.types.len();
         o.types.push(J::Null);
-        o.type_ix.insert(s.clone(), ix);
+        o.type_ix.insert(key.clone(), ix);
         ix
     });
     let mut nref = 0;
